@@ -106,7 +106,7 @@ func mutateKey(rng *Rng, w *World) map[string]any {
 	k := keyJSON(src, true)
 	other := pool()[[]int{0, 2, 4, 8, 3}[rng.Intn(5)]]
 	ok := keyJSON(other, true)
-	switch rng.Intn(14) {
+	switch rng.Intn(15) {
 	case 0:
 		k["keytype"] = rng.Pick([]string{"rsa", "ecdsa", "ed25519", "", "dsa", "RSA"})
 	case 1:
@@ -136,6 +136,13 @@ func mutateKey(rng *Rng, w *World) map[string]any {
 	case 12:
 		c := getCA("rootA", nil, "ok")
 		k["public"] = c.PEM
+	case 13:
+		// material that OPENS with well-armored blocks which are no key (what `openssl ecparam -genkey`
+		// writes in front of a key, once or several times): an error, and the call returns
+		// (seeded change c15-ec-parameters-skip-loop-spins)
+		blk := "-----BEGIN EC PARAMETERS-----\nBggqhkjOPQMBBw==\n-----END EC PARAMETERS-----\n"
+		half := rng.Pick([]string{"public", "private"})
+		k[half] = strings.Repeat(blk, 1+rng.Intn(3)) + rng.Pick([]string{"", str(k[half])})
 	}
 	// the symbolic-signature model assumes that well-formed halves belong together: when both
 	// halves are usable by rule but come from different key pairs, fall back to the intact key
